@@ -136,8 +136,12 @@ def judge(ctx, ast, sp, T, vi, v):
                                f"freshly built converter -> {out2[0]} {core.srepr(out2[1])}", e1.cell_desc(ast, sp, vi, v), cost)
 
 
+def expressions(tier):
+    return grammar.expressions(tier) + grammar.tagged_expressions()
+
+
 def run_shard(shard, tier):
-    return e1.run_shard(shard, tier, judge)
+    return e1.run_shard(shard, tier, judge, expr_fn=expressions)
 
 
 def replay(cell):
